@@ -1,5 +1,6 @@
 """Runs the T2Grid pipeline (MC, S2C, C2S) and reports the clauses of C08 or C09."""
 import json
+import os
 import random
 
 from . import core, tlc, gridmodel
@@ -93,7 +94,8 @@ def run(pid, tier):
             rep.case(("c2s", json.dumps(e["act"], sort_keys=True)))
 
     # ---- geometry-built grids (up to ~200 blocks): reorder / rename / minc drivers
-    big = big_grid_traces(t2grids, rng, 4 if quick else 40)
+    leaves = []
+    big = big_grid_traces(t2grids, rng, 6 if quick else 40, leaves)
     for t in big:
         traces.append([{"act": e["act"], "state": e["state"]} for e in t])
         meta.append(("c2s-geo", t))
@@ -135,6 +137,10 @@ def run(pid, tier):
                 if ndrift <= 5:
                     rep.drifted("%s step %s not explained by the specification (all property clauses hold)"
                                 % (kind, json.dumps(act, sort_keys=True)[:200]))
+    # the leaves are only meaningful on grids whose recorded states were all consistent
+    big_tids = [tid for tid, (kind, t) in enumerate(meta) if kind == "c2s-geo"]
+    if not any(tid in failing_tids for tid in big_tids):
+        big_grid_leaves(rep, t2grids, leaves, rng, mine)
     for e in errors:
         if "raised" in mine:
             rep.violation(action_key(e["act"]) + ":raises", "raised", e)
@@ -158,7 +164,7 @@ def run(pid, tier):
     return rep.finish()
 
 
-def big_grid_traces(t2grids, rng, n):
+def big_grid_traces(t2grids, rng, n, leaves):
     """Grids built from rectangular geometries (up to ~200 blocks), abstracted onto
     the spec's name space by numbering blocks; rename/reorder/minc sequences."""
     import numpy as np
@@ -174,16 +180,142 @@ def big_grid_traces(t2grids, rng, n):
             grid = t2grids.t2grid().fromgeo(geo)
         ad = BigAdapter(t2grids, grid)
         tr = [{"act": {"op": "init"}, "state": ad.project()}]
+        ok = True
         for _ in range(rng.randint(3, 8)):
             a = ad.random_action(rng)
             try:
                 ad.apply(a)
             except Exception as e:
                 tr.append({"act": a, "state": ad.project(), "error": repr(e)})
+                ok = False
                 break
             tr.append({"act": a, "state": ad.project()})
         out.append(tr)
+        if ok:
+            leaves.append((ad.grid, geo))
     return out
+
+
+def phys(grid):
+    """What the grid describes, by name: per block (volume, rock type, centre), per connected pair (area, direction,
+    each block's own distance, sign of the gravity cosine as seen from the first block of the pair)."""
+    blocks = dict((b.name, (float(b.volume), b.rocktype.name, None if b.centre is None else [float(x) for x in b.centre]))
+                  for b in grid.blocklist)
+    conns = {}
+    for c in grid.connectionlist:
+        a, b = c.block[0].name, c.block[1].name
+        s = 0 if not c.dircos else (1 if c.dircos > 0 else -1)
+        d = {a: float(c.distance[0]), b: float(c.distance[1])}
+        conns[frozenset((a, b))] = (float(c.area), int(c.direction), d, {a: s, b: -s})
+    return blocks, conns
+
+
+def phys_difference(p0, p1, tol):
+    b0, c0 = p0
+    b1, c1 = p1
+    if sorted(b0) != sorted(b1):
+        return "block names differ"
+    close = lambda x, y: abs(x - y) <= tol * max(abs(x), abs(y), 1e-300)
+    for n in b0:
+        v0, r0, x0 = b0[n]
+        v1, r1, x1 = b1[n]
+        if not close(v0, v1) or r0 != r1:
+            return "block %s: volume / rock type %r %s -> %r %s" % (n, v0, r0, v1, r1)
+        if (x0 is None) != (x1 is None) or (x0 is not None and any(abs(p - q) > tol * max(1.0, abs(p)) for p, q in zip(x0, x1))):
+            return "block %s: centre %r -> %r" % (n, x0, x1)
+    if set(c0) != set(c1):
+        return "connected pairs differ"
+    for k in c0:
+        a0, d0, ds0, s0 = c0[k]
+        a1, d1, ds1, s1 = c1[k]
+        if not close(a0, a1) or d0 != d1 or any(not close(ds0[n], ds1[n]) for n in ds0) or any(s0[n] != s1[n] for n in s0):
+            return "connection %s: %r -> %r" % (sorted(k), c0[k], c1[k])
+    return None
+
+
+def big_grid_leaves(rep, t2grids, leaves, rng, mine):
+    """On the geometry-built grids after their edit sequences: (a) a write / read of the data file keeps the physics (to the
+    digits the file carries); (b) MINC with 2..6 fractions, 1..3 plane sets, any spacing, full or partial selection (atmosphere
+    and boundary blocks included in the selection are skipped) keeps every original block's total volume, split as requested
+    and chained fracture -> innermost matrix."""
+    import numpy as np
+    import shutil
+    t2data = core.repo_modules("t2data")
+    work = tlc.scratch_dir("c09-")
+    try:
+        for k, (grid, geo) in enumerate(leaves):
+            det = {"grid": "rectangular %d blocks, atmosphere type %d" % (grid.num_blocks, geo.atmosphere_type)}
+            if "C09_PhysUnchanged" in mine:
+                p0 = phys(grid)
+                try:
+                    with core.quiet(), core.watchdog(120):
+                        dat = t2data.t2data()
+                        dat.grid = grid
+                        f = os.path.join(work, "g%d.dat" % k)
+                        dat.write(f)
+                        g2 = t2data.t2data(f).grid
+                    bad = phys_difference(p0, phys(g2), 2e-4)
+                except Exception as ex:
+                    bad = "write / read raised %r" % ex
+                rep.case(("file-cycle", k))
+                rep.traces += 1
+                if bad:
+                    det["difference"] = bad
+                    rep.violation("file-cycle-after-edits", "C09_PhysUnchanged", det)
+            if "C09_Minc" in mine:
+                nf = rng.randint(2, 6)
+                w = [rng.uniform(0.05, 1.0) for _ in range(nf)]
+                fr = [x / sum(w) for x in w]
+                scale = rng.choice([1.0, 100.0, 0.37])
+                names = [b.name for b in grid.blocklist]
+                sel = None if rng.random() < 0.4 else rng.sample(names, rng.randint(1, len(names)))
+                natm = geo.num_atmosphere_blocks
+                if sel is not None and natm and rng.random() < 0.7:
+                    sel = sorted(set(sel) | set(names_atm(grid)))
+                before = dict((b.name, float(b.volume)) for b in grid.blocklist)
+                nplanes = rng.randint(1, 3)
+                try:
+                    with core.quiet(), core.watchdog(120):
+                        idx = grid.minc([x * scale for x in fr], spacing=rng.choice([50.0, 3.0, [40.0, 20.0, 10.0][:nplanes]]),
+                                        num_fracture_planes=nplanes, blocks=sel)
+                except Exception as ex:
+                    det["error"] = repr(ex)
+                    rep.violation("minc-on-geometry-grid:raises", "C09_Minc", det)
+                    continue
+                rep.case(("minc-big", k, nf, nplanes, sel is None))
+                rep.traces += 1
+                bad = None
+                target = set(names if sel is None else sel)
+                for j, n in enumerate(names):
+                    v0 = before[n]
+                    applies = n in target and 0.0 < v0 < 1.0e25
+                    if not applies:
+                        if abs(grid.block[n].volume - v0) > 1e-9 * max(1.0, v0):
+                            bad = "block %s is not MINCed (volume %r) but its volume became %r" % (n, v0, grid.block[n].volume)
+                            break
+                        continue
+                    chain = [grid.block[n]]
+                    for lev in range(1, nf):
+                        mname = str(lev) + n[len(str(lev)):]
+                        if mname not in grid.block or (chain[-1].name, mname) not in grid.connection:
+                            bad = "block %s: level %d matrix block / chain connection missing" % (n, lev)
+                            break
+                        chain.append(grid.block[mname])
+                    if bad:
+                        break
+                    vols = [b.volume for b in chain]
+                    if abs(sum(vols) - v0) > 1e-9 * v0 or any(abs(v - f * v0) > 1e-9 * v0 for v, f in zip(vols, fr)):
+                        bad = "block %s: volume %r split into %r, fractions %r" % (n, v0, vols, fr)
+                        break
+                if bad:
+                    det.update(difference=bad, fractions=fr, selection="all" if sel is None else len(sel))
+                    rep.violation("minc-on-geometry-grid", "C09_Minc", det)
+    finally:
+        shutil.rmtree(work, ignore_errors=True)
+
+
+def names_atm(grid):
+    return [b.name for b in grid.blocklist if not (0.0 < b.volume < 1.0e25)]
 
 
 class BigAdapter(gridmodel.Adapter):
